@@ -351,3 +351,41 @@ Definition wf_state (md : memd) (st : mstate) : Prop :=
   length (st_rows st) = Z.to_nat (md_depth md) /\
   Forall (in_range (md_shape md)) (st_rows st) /\
   length (st_rdata st) = length (md_rports md).
+
+(* ================================================================== appended: row shapes, constructor-derived widths
+   (what lib.memory / lib.data compute from the user's arguments; previously computed by the harness in Python) *)
+(* shape-like of a row: a plain Shape, a data.StructLayout (fields laid out LSB first, width = sum of the field
+   widths), a data.ArrayLayout(elem, length) (width = elem width * length); aggregates are unsigned as values *)
+Inductive rowshape :=
+| RSPlain (s : shape)
+| RSStruct (fields : list shape)
+| RSArray (elem : shape) (len : Z).
+
+Definition rs_shape (r : rowshape) : shape :=
+  match r with
+  | RSPlain s => s
+  | RSStruct fs => Sh (fold_right (fun f a => width f + a) 0 fs) false
+  | RSArray e n => Sh (width e * n) false
+  end.
+
+(* WritePort.Signature.__init__: len(en).  For an ArrayLayout the granularity counts elements. *)
+Definition rs_enw (r : rowshape) (gran : option Z) : Z :=
+  match gran with
+  | None => 1
+  | Some g =>
+      match r with
+      | RSArray _ n => if n =? 0 then 0 else n / g
+      | _ => wsig_enw (rs_shape r) gran
+      end
+  end.
+
+(* the port configuration as Memory.write_port / read_port are called: (domain, granularity) per write port *)
+Definition mk_md (r : rowshape) (depth : Z) (wps : list (Z * option Z)) (rps : list rport) : memd :=
+  MD (rs_shape r) depth (map (fun p => WP (fst p) (rs_enw r (snd p))) wps) rps.
+
+(* MemoryData.Init with a shape-castable row shape: rows not given default to shape.const(None) (dflt), and so
+   does the data signal of every read port (Signal(shape) init) *)
+Definition init_rows_d (md : memd) (dflt : Z) (init : list Z) : list Z :=
+  firstn (Z.to_nat (md_depth md)) (map (norm (md_shape md)) init ++ repeat (norm (md_shape md) dflt) (Z.to_nat (md_depth md))).
+Definition init_state_d (md : memd) (dflt : Z) (init : list Z) : mstate :=
+  MSt (init_rows_d md dflt init) (map rp_init (md_rports md)) (fun _ => RI 0 0).
